@@ -411,12 +411,48 @@ class P:
         return items
 
 
+def _canonical_spelling(toks):
+    """One spelling for operators SQLite accepts in several forms, so that rules which compare predicates or
+    statement kinds do not depend on it: `x NOTNULL` / `x NOT NULL` -> `x IS NOT NULL`, `x ISNULL` -> `x IS NULL`,
+    `<>` -> `!=`, `==` -> `=`, `INNER JOIN` -> `JOIN`.  Data-manipulation statements only (in DDL NOT NULL is a
+    column constraint)."""
+    out = []
+    i = 0
+    n = len(toks)
+
+    def kw(word, like):
+        return Tok('id', word, word, like.pos)
+    while i < n:
+        t = toks[i]
+        if t.is_kw('NOTNULL'):
+            out += [kw('IS', t), kw('NOT', t), kw('NULL', t)]
+        elif t.is_kw('ISNULL'):
+            out += [kw('IS', t), kw('NULL', t)]
+        elif t.is_kw('NOT') and i + 1 < n and toks[i + 1].is_kw('NULL') and out and not out[-1].is_kw('IS') \
+                and (out[-1].kind in ('id', 'num', 'str', 'qm') or out[-1].is_op(')')) \
+                and not out[-1].is_kw('AND', 'OR', 'WHERE', 'ON', 'WHEN', 'THEN', 'ELSE', 'SET', 'SELECT'):
+            out += [kw('IS', t), kw('NOT', t), kw('NULL', toks[i + 1])]
+            i += 1
+        elif t.is_op('<>'):
+            out.append(Tok('op', '!=', '!=', t.pos))
+        elif t.is_op('=='):
+            out.append(Tok('op', '=', '=', t.pos))
+        elif t.is_kw('INNER') and i + 1 < n and toks[i + 1].is_kw('JOIN'):
+            pass
+        else:
+            out.append(t)
+        i += 1
+    return out
+
+
 def parse(text_or_toks):
     toks = tokenize(text_or_toks) if isinstance(text_or_toks, str) else list(text_or_toks)
     while toks and toks[-1].is_op(';'):
         toks.pop()
     if not toks:
         raise SqlError('empty statement')
+    if toks[0].is_kw('SELECT', 'WITH', 'INSERT', 'REPLACE', 'UPDATE', 'DELETE'):
+        toks = _canonical_spelling(toks)
     p = P(toks)
     t0 = toks[0]
     if t0.is_kw('SELECT', 'WITH'):
